@@ -60,6 +60,14 @@ CLAIMED = {
     text='Translator tie for stmodels.py (sum, product, product-sum proved equal to the documented combinations of arbitrary marginal functions Vx, Vt); theorems: sample i*T+j of the lag grid carries (xbins[i], tbins[j]) - the lags of cell (i,j) of the space-major table - and NaN cells contribute no sample. Tie: the (xdata, ydata) actually passed to curve_fit (recorded by wrapping the module attribute) against the model; fitted model against the documented formula on (N,2) arrays and single lags; re-fit after a lag change.',
     note='PARTIAL: local least-squares optimality is behaviour of scipy.optimize.curve_fit; it is TESTED against a bounded linear least-squares reference (product-sum is linear in k1,k2,k3), not proved.',
     technique='Python->Coq translator + Coq proof over lists + recorded-fit-call correspondence + optimality test', ref='3 C15'),
+ 'C12': dict(
+    text='Translator tie: _compass, _triangle and the pair-angle assignments of _calc_direction_mask_data are regenerated into coq/Gen/Direction.v on every run. Theorems over R for every pair vector u=(dx,dy) of positive length, azimuth in [-180,180], any tolerance and bandwidth: the two np.where steps fold |theta+az| to the angle between undirected lines (0<=fold<=pi/2, cos fold = |cos|); compass <=> acos(|u.a|/|u|) <= tolerance/2 with a = (cos az, -sin az) (0 = East, clockwise positive); triangle <=> that and |u x a| <= bandwidth/2; both decisions are unchanged when the two points are swapped. Grouping part (Q): masked groups = C01 groups with unselected pairs at -1; a pair is in class i iff selected and its distance lies in class i. Tie: translated definitions evaluated per pair against the implementation mask, masked-group model, brute-force geometric oracle, order reversal, edges/estimator from the selected pairs only, in-place setter changes.',
+    note='Pairs within 1e-7 degrees / 1e-9 of the tolerance / bandwidth boundary and zero-length pairs are excluded, as the property states. Real-number semantics (standard-library real axioms).',
+    technique='Python->Coq translator + real trigonometry in Coq + extracted-model correspondence + geometric oracle', ref='3 C12'),
+ 'C13': dict(
+    text='Theorems over R: tolerance 180 selects every pair of distinct points (Cauchy-Schwarz + acos x <= pi/2 for x>=0); azimuth and azimuth+180 give the same selection; rotation by any (c,s) with c^2+s^2=1 keeps u.a, u x a and |u|, and rotating the azimuth rotates its direction vector accordingly. Tie: as C12 (same generated definitions) + symmetry runs on the implementation: tolerance 180 vs isotropic variogram, azimuth +-180, rotations by 90/180/-90/atan(3/4), sector tilings of width 90/60/45/30/20.',
+    note='PARTIAL: the sector cover/partition clauses are tested, not proved. Known finding F16 (duplicated points: zero-length pairs never selected).',
+    technique='Python->Coq translator + real trigonometry/algebra in Coq + symmetry oracle', ref='3 C13'),
 }
 
 PENDING_REASON = 'check not built yet in this round (work in progress; the property is within reach of the technique, see DESIGN.md section 3)'
